@@ -376,4 +376,79 @@ ExecS(s, w, top) ==
     [] OTHER -> w
 Exec(ss, i, w, top) == IF i > Len(ss) THEN w ELSE Exec(ss, i + 1, ExecS(ss[i], w, top), top)
 Run(stmts, val, cont, mem) == Exec(stmts, 1, EmptyWorld(val, cont, mem), TRUE)
+
+(* ------------------------- twin transformations ------------------------- *)
+(* "its unrolling" and "the manually inlined twin" have ONE formal meaning: *)
+(* syntactic substitution with locals renamed apart.                        *)
+RECURSIVE SubstE(_, _, _)
+\* replace references: rn : name -> name (renaming), sv : name -> expression (parameter / iterator binding)
+RnT(t, rn) == IF "of" \in DOMAIN t /\ t.of \in DOMAIN rn THEN [of |-> rn[t.of]] ELSE t
+SubstE(e, rn, sv) ==
+  CASE e.k = "ref" -> IF e.n \in DOMAIN sv THEN sv[e.n] ELSE IF e.n \in DOMAIN rn THEN [e EXCEPT !.n = rn[e.n]] ELSE e
+    [] e.k = "bin" -> [e EXCEPT !.l = SubstE(e.l, rn, sv), !.r = SubstE(e.r, rn, sv)]
+    [] e.k = "un" -> [e EXCEPT !.e = SubstE(e.e, rn, sv)]
+    [] e.k \in {"proj", "lit"} -> [e EXCEPT !.e = SubstE(e.e, rn, sv), !.t = RnT(e.t, rn)]
+    [] e.k = "cond" -> [e EXCEPT !.c = SubstE(e.c, rn, sv), !.v = SubstE(e.v, rn, sv)]
+    [] e.k = "read" -> IF e.m \in DOMAIN rn THEN [e EXCEPT !.m = rn[e.m]] ELSE e
+    [] e.k = "blit" -> [e EXCEPT !.es = [i \in DOMAIN e.es |-> SubstE(e.es[i], rn, sv)]]
+    [] e.k \in {"sel", "any", "all"} -> [e EXCEPT !.b = SubstE(e.b, rn, sv)]
+    [] e.k = "eout" -> IF e.n \in DOMAIN rn THEN [e EXCEPT !.n = rn[e.n]] ELSE e
+    [] e.k = "call" -> [e EXCEPT !.args = [i \in DOMAIN e.args |-> SubstE(e.args[i], rn, sv)]]
+    [] OTHER -> e
+Rn(n, rn) == IF n \in DOMAIN rn THEN rn[n] ELSE n
+\* bounds of a range may only be numbers or names: a substituted iterator/parameter must be a literal there
+SubstB(b, rn, sv) == IF b.k = "ref" /\ b.n \in DOMAIN sv THEN sv[b.n] ELSE IF b.k = "ref" THEN Ref(Rn(b.n, rn)) ELSE b
+RECURSIVE SubstS(_, _, _)
+SubstS(s, rn, sv) ==
+  CASE s.k \in {"int", "let"} -> [s EXCEPT !.n = Rn(s.n, rn), !.e = SubstE(s.e, rn, sv)]
+    [] s.k = "expr" -> [s EXCEPT !.e = SubstE(s.e, rn, sv)]
+    [] s.k = "mem" -> [s EXCEPT !.n = Rn(s.n, rn)]
+    [] s.k = "write" -> [s EXCEPT !.m = Rn(s.m, rn), !.e = SubstE(s.e, rn, sv), !.a = SubstE(s.a, rn, sv), !.b = SubstE(s.b, rn, sv)]
+    [] s.k = "place" -> [s EXCEPT !.n = Rn(s.n, rn), !.x = SubstE(s.x, rn, sv), !.y = SubstE(s.y, rn, sv)]
+    [] s.k = "prop" -> [s EXCEPT !.ent = IF s.ent \in DOMAIN sv /\ sv[s.ent].k = "ref" THEN sv[s.ent].n ELSE Rn(s.ent, rn), !.e = SubstE(s.e, rn, sv)]
+    [] s.k = "for" -> [s EXCEPT !.body = [i \in DOMAIN s.body |-> SubstS(s.body[i], rn, sv)],
+                                !.iter = IF s.iter.k = "range" THEN [s.iter EXCEPT !.a = SubstB(s.iter.a, rn, sv), !.b = SubstB(s.iter.b, rn, sv), !.s = SubstB(s.iter.s, rn, sv)] ELSE s.iter]
+    [] OTHER -> s
+\* names a block declares (its locals)
+Declared(ss) == {ss[i].n : i \in {i \in DOMAIN ss : ss[i].k \in {"int", "let", "mem", "place"}}}
+Suffix(names, suf) == [n \in names |-> n \o suf]
+
+\* top-level int constants with literal values (bounds given by int variables)
+IntConst(ss, n) == LET I == {i \in DOMAIN ss : ss[i].k = "int" /\ ss[i].n = n /\ ss[i].e.k = "num"} IN
+                   IF I = {} THEN 0 ELSE ss[CHOOSE i \in I : TRUE].e.v
+RECURSIVE UnrollS(_, _, _), UnrollB(_, _, _)
+\* Unroll: every loop replaced by copies of its body, iterator substituted, locals renamed apart (suffix _<depth>_<k>)
+UnrollB(ss, top, tag) == LET G[i \in 0..Len(ss)] == IF i = 0 THEN <<>> ELSE G[i-1] \o UnrollS(ss[i], top, tag \o "_" \o ToString(i)) IN G[Len(ss)]
+UnrollS(s, top, tag) ==
+  IF s.k # "for" THEN <<s>>
+  ELSE LET bv(b) == IF b.k = "num" THEN b.v ELSE IntConst(top, b.n)
+           vals == IF s.iter.k = "list" THEN s.iter.vs
+                   ELSE LET st == bv(s.iter.s) IN RangeVals(bv(s.iter.a), bv(s.iter.b), IF st = 0 THEN 1 ELSE st, 2000)
+           copy(k) == LET suf == tag \o "_" \o ToString(k)
+                          rn == Suffix(Declared(s.body), suf)
+                          body == [j \in DOMAIN s.body |-> SubstS(s.body[j], rn, (s.i :> Num(vals[k])))]
+                      IN UnrollB(body, top, suf)
+           F[k \in 0..Len(vals)] == IF k = 0 THEN <<>> ELSE F[k-1] \o copy(k)
+       IN F[Len(vals)]
+Unroll(stmts) == UnrollB(stmts, stmts, "_u")
+
+\* Inline: every statement-level call replaced by the body with parameters bound to the arguments,
+\* locals renamed apart and the return expression in place of the call
+FuncOf(ss, f) == ss[CHOOSE i \in DOMAIN ss : ss[i].k = "func" /\ ss[i].n = f]
+RECURSIVE InlineS(_, _, _, _), InlineB(_, _, _)
+InlineB(ss, top, tag) ==
+  LET F[i \in 0..Len(ss)] == IF i = 0 THEN <<>> ELSE F[i-1] \o InlineS(ss[i], top, tag \o "_" \o ToString(i), i) IN F[Len(ss)]
+InlineCall(call, top, tag) ==
+  LET f == FuncOf(top, call.f)
+      rn == Suffix(Declared(f.body), tag)
+      sv == [n \in {f.params[j].n : j \in DOMAIN f.params} |-> call.args[CHOOSE j \in DOMAIN f.params : f.params[j].n = n]]
+      body == [j \in DOMAIN f.body |-> SubstS(f.body[j], rn, sv)]
+  IN [stmts |-> InlineB(body, top, tag), ret |-> IF "k" \in DOMAIN f.ret THEN SubstE(f.ret, rn, sv) ELSE Num(0)]
+InlineS(s, top, tag, idx) ==
+  IF s.k = "func" THEN <<>>
+  ELSE IF s.k = "let" /\ s.e.k = "call" THEN LET c == InlineCall(s.e, top, tag) IN c.stmts \o <<[s EXCEPT !.e = c.ret]>>
+  ELSE IF s.k = "expr" /\ s.e.k = "call" THEN InlineCall(s.e, top, tag).stmts
+  ELSE IF s.k = "for" THEN <<[s EXCEPT !.body = InlineB(s.body, top, tag)]>>
+  ELSE <<s>>
+Inline(stmts) == InlineB(stmts, stmts, "_c")
 =============================================================================
